@@ -5,7 +5,7 @@ import VrlModel.Spans
   Line-protocol handlers of C33.
 
     o.c33            <x+hex src> | <diags> <render> <render coloured>
-        diags  = `-` | `<sev><code>:<s>-<e>,<s>-<e>…;…` | `panic` (then <render> = panic site)
+        diags  = `-` | `<sev><code>[/<token>]:<s>-<e>,<s>-<e>…;…` | `panic` (then <render> = panic site)
         prints `holds` or `fails <clause>:<class>`:
           panic:<site>             `compile` panicked (a C04 finding seen by the C33 stream)
           render:panic / render:render_failed
@@ -33,19 +33,23 @@ def spanOfString (s : String) : Option Span :=
 def showSpan (s : Span) : String := toString s.start ++ "-" ++ toString s.stop
 
 /-- `e642:11-16,7-10` → (code, labels) -/
-def diagOfString (s : String) : Option (Nat × List Span) :=
+def diagOfString (s : String) : Option (Nat × String × List Span) :=
   match s.splitOn ":" with
   | [head, labels] => do
-    let code ← (String.ofList (head.toList.drop 1)).toNat?
+    -- `e203/RQuery`: severity, code and (syntax errors) the unexpected token's name
+    let (codeS, tag) := match (String.ofList (head.toList.drop 1)).splitOn "/" with
+      | [c, t] => (c, t)
+      | _ => (String.ofList (head.toList.drop 1), "")
+    let code ← codeS.toNat?
     let ls ← if labels.isEmpty then some [] else (labels.splitOn ",").mapM spanOfString
-    pure (code, ls)
+    pure (code, tag, ls)
   | _ => none
 
-def firstBadLabel (src : List Nat) : List (Nat × List Span) → Option String
+def firstBadLabel (src : List Nat) : List (Nat × String × List Span) → Option String
   | [] => none
-  | (code, ls) :: rest =>
+  | (code, tag, ls) :: rest =>
     match ls.findSome? (fun l => clause src l) with
-    | some c => some ("span:E" ++ toString code ++ ":" ++ c)
+    | some c => some ("span:E" ++ toString code ++ ":" ++ c ++ (if tag.isEmpty then "" else ":" ++ tag))
     | none => firstBadLabel src rest
 
 def oracle (src : List Nat) (diags render renderColored : String) : Option String :=
